@@ -141,6 +141,24 @@ def make_dual_plan(prop):
 PLAN_DUAL = make_dual_plan('C02')
 
 
+def _translated_plans():
+    # the same rows with translation on: an unaligned access is translated byte by byte, so its bytes may lie in pages that are not physically contiguous
+    # (C15's table builder) or in MPU regions with different permissions (C14's region builder): address used and bytes transferred, judged here
+    from vf.props import c14, c15
+    rset = set(ROWS)
+    vm = e1prop.Plan('C02', [r for r in c15.ROWS if r in rset], cfgs=c15.PLAN.cfgs, classify=classify, tweak_case=c15.tweak, hooked=(True, True, False), case_kw=c15.PLAN.case_kw)
+    pm = e1prop.Plan('C02', [r for r in c14.ROWS if r in rset], cfgs=('v7', 'v6', 'v7'), classify=classify, tweak_case=c14.tweak, case_kw=c14.PLAN.case_kw)
+    return vm, pm
+
+
+def __getattr__(name):
+    # built on first use (vf.props.c14 imports modules that import this one)
+    if name in ('PLAN_VMSA', 'PLAN_PMSA'):
+        globals()['PLAN_VMSA'], globals()['PLAN_PMSA'] = _translated_plans()
+        return globals()[name]
+    raise AttributeError(name)
+
+
 def run(ctx):
     ctx.rule = ('Hypothesis draws (LDR/STR-family encoding row incl. byte/halfword/dual/literal/register/unprivileged/exclusive forms, field '
                 'bits with all P/U/W, register tweak, entropy, config arch 5/6/7); the base register is aimed into / at the edges of / across '
@@ -153,6 +171,10 @@ def run(ctx):
                        'store-exclusive with the stock monitor stubs is pinned to the documented "no reservation" outcome']
     e1prop.run_plan(ctx, 'vf.props.c02:PLAN', PLAN, shards=32, quick=600, thorough=10000)
     e1prop.run_plan(ctx, 'vf.props.c02:PLAN_DUAL', PLAN_DUAL, shards=8, quick=150, thorough=3000)
+    import sys
+    me = sys.modules[__name__]
+    e1prop.run_plan(ctx, 'vf.props.c02:PLAN_VMSA', me.PLAN_VMSA, shards=8, quick=250, thorough=4000, witnesses=False, repeat=False, history=False)
+    e1prop.run_plan(ctx, 'vf.props.c02:PLAN_PMSA', me.PLAN_PMSA, shards=8, quick=250, thorough=4000, witnesses=False, repeat=False, history=False)
 
 
 def replay(case, bucket=None):
